@@ -358,7 +358,9 @@ class RecModel(nn.Module):
         if self.before is not None:
             self.before(k, x)
         if self.events is not None:
-            self.events.add(ev="forward", training=self.training, grad=torch.is_grad_enabled(),
+            modes = [m.training for m in self.modules()]
+            self.events.add(ev="forward", training=self.training, training_all=all(modes), training_any=any(modes),
+                            grad=torch.is_grad_enabled(),
                             n=int(x.shape[0]), rng=torch.get_rng_state() if self.events_rng else None)
         y = self.inner(x)
         if self.recording:
@@ -440,7 +442,12 @@ def build_criterion(spec):
 
 # ----------------------------------------------------------------------------- features
 
-def build_feature(f, world=None):
+def build_feature(f, world=None, shared=None):
+    """shared: dict of feature objects that several hedgers hold in common (spec key "share")"""
+    if isinstance(f, dict) and f.get("share") and shared is not None:
+        if f["share"] not in shared:
+            shared[f["share"]] = build_feature(f, world, None)
+        return shared[f["share"]]
     if isinstance(f, str):
         if f == "underlier_log_spot":
             return pff.UnderlierSpot(log=True)
@@ -499,7 +506,7 @@ class World:
         for s in wspec.get("models", []):
             self.models[s["id"]] = build_model(s, self)
         for s in wspec.get("hedgers", []):
-            self.hedgers[s["id"]] = self.build_hedger(s)
+            self.hedgers[s["id"]] = self.build_hedger(s, share=True)
 
     def spec_of(self, section, id_):
         for s in self.spec.get(section, []):
@@ -507,15 +514,17 @@ class World:
                 return s
         raise KeyError(id_)
 
-    def build_hedger(self, s, model=None, criterion=None):
+    def build_hedger(self, s, model=None, criterion=None, share=False):
         """model/criterion override: used by restart (F3) to rebuild from durable state."""
+        if not hasattr(self, "shared_features"):
+            self.shared_features = {}
         if model is None:
             model = self.models[s["model"]]
         if criterion is None:
             criterion = self.criteria[s["criterion"]] if s.get("criterion") else None
         if self.record_models and not isinstance(model, RecModel):
             model = RecModel(model)
-        inputs = [build_feature(f, self) for f in s["inputs"]]
+        inputs = [build_feature(f, self, self.shared_features if share else None) for f in s["inputs"]]
         if criterion is None:
             h = pfn.Hedger(model, inputs)
         else:
@@ -527,7 +536,10 @@ class World:
         s = self.spec_of("hedgers", hid)
         old = self.hedgers[hid]
         inner = old.model.inner if isinstance(old.model, RecModel) else old.model
-        model = copy.deepcopy(inner)
+        # the market is not part of a hedger's durable state: a module bound to a derivative (BlackScholes, WhalleyWilmott) keeps
+        # pointing at the live instrument objects, only its own attributes and parameters are copied
+        memo = {id(o): o for o in list(self.derivatives.values()) + list(self.primaries.values())}
+        model = copy.deepcopy(inner, memo)
         crit = copy.deepcopy(old.criterion)
         h = self.build_hedger(s, model=model, criterion=crit)
         _sync_module_outputs(old.inputs, h.inputs)
